@@ -47,8 +47,10 @@ ASSUMPTIONS = [
     'slots as plain dicts in the Slot schema',
     'radical.utils (sh_quote, env_prep, TypedDict) as installed; get_version shim']
 NOT_REACHED = [
-    'named environments, services, startup_timeout (radical-pilot-control), pre/post_launch',
-    'launch methods other than FORK and MPIRUN; real MPI rank variables other than PMIX_RANK',
+    'named environments inside a full task run (the prepared script is sourced on its own, for every launch '
+    'method class), services, startup_timeout (radical-pilot-control), pre/post_launch',
+    'full task runs through launch methods other than FORK, MPIRUN and the Flux job shell; real MPI rank '
+    'variables other than PMIX_RANK',
     'executable names with shell-special characters (used as given by design); NUL bytes; '
     'control characters other than tab/newline/CR; `$` forms other than $NAME, ${NAME}, $(cmd), '
     'lone `$` (documented to be expanded by the shell, ru.sh_quote)']
